@@ -165,9 +165,15 @@ func ZZ_C15_P3_P4b_compose() {
 // symbolic text parses on its own, its concatenation with a fixed text that
 // parses parses too, the statement lists concatenate and every node of the
 // second text keeps its position shifted by the first text's line count.
-func zzComposeSym(n int, symFirst bool) {
-	sym := zz.SymString(n)
-	fixed := []string{"b = [1]", "f(x)"}[zz.Choose(2)]
+func zzComposeSym(n int, symFirst bool) { zzComposeSymStem(n, symFirst, "") }
+
+// zzComposeSymStem: the symbolic text starts with a fixed stem, so that texts
+// whose first token needs more runes than the symbolic bound are reached too:
+// every keyword of the scanner's table (taken from the real opName map) and a
+// few multi-rune operators, followed by n symbolic runes.
+func zzComposeSymStem(n int, symFirst bool, stem string) {
+	sym := stem + zz.SymString(n)
+	fixed := []string{"b = [1]", "f(x)", "if a { b }", "a = 1"}[zz.Choose(4)]
 	s1, s2 := sym, fixed
 	if !symFirst {
 		s1, s2 = fixed, sym
@@ -215,6 +221,38 @@ func zzComposeSym(n int, symFirst bool) {
 		}
 		zz.Assert(ok, "C15.P4b.sym/same-subtrees-with-shifted-positions")
 	}
+}
+
+// zzStems: the keywords (sorted, from the real table) and operator stems.
+func zzStems() []string {
+	var ks []string
+	for k := range opName {
+		ks = append(ks, k)
+	}
+	for i := 1; i < len(ks); i++ {
+		for j := i; j > 0 && ks[j] < ks[j-1]; j-- {
+			ks[j], ks[j-1] = ks[j-1], ks[j]
+		}
+	}
+	return append(ks, "x.", "x[", "x(", "\"s\"", "1.", "0x", "<-", "x ?", "# ", "// ", "/*", "x = ", "x,", "}", "{", "x +")
+}
+
+// ZZ_C15_P4b_compose_stem_*: stem + <= n symbolic runes as the second / first text.
+func ZZ_C15_P4b_compose_stem_second_n1() {
+	st := zzStems()
+	zzComposeSymStem(1, false, st[zz.Choose(len(st))])
+}
+func ZZ_C15_P4b_compose_stem_second_n2() {
+	st := zzStems()
+	zzComposeSymStem(2, false, st[zz.Choose(len(st))])
+}
+func ZZ_C15_P4b_compose_stem_first_n1() {
+	st := zzStems()
+	zzComposeSymStem(1, true, st[zz.Choose(len(st))])
+}
+func ZZ_C15_P4b_compose_stem_first_n2() {
+	st := zzStems()
+	zzComposeSymStem(2, true, st[zz.Choose(len(st))])
 }
 
 func ZZ_C15_P4b_compose_sym_first_n1()  { zzComposeSym(1, true) }
